@@ -897,3 +897,152 @@ Proof.
   intros. unfold dns_new. cbn [ds_queries]. intro H.
   apply nth_error_In in H. apply repeat_spec in H. discriminate.
 Qed.
+
+(* ====================================================================================== *)
+(* Part E: dispatch, the egress loop, poll_at, and the time bound                         *)
+(* ====================================================================================== *)
+
+Definition dq_state (r : dns_dq_res) : dns_qstate :=
+  match r with DqContinue st | DqEmit st _ | DqEmitErr st => st end.
+
+(* the servers a query is sent to: the two mDNS groups for a .local name, else the configured list *)
+Definition dns_eff_servers (servers : list (list Z)) (pq : dns_pending) : list (list Z) :=
+  if pq_mdns pq then [dns_MDNS_IPV6_ADDR; dns_MDNS_IPV4_ADDR] else servers.
+
+(* the timer fields after the "Check timeout" step of dispatch *)
+Definition dns_pq2 (now : Z) (pq : dns_pending) : dns_pending :=
+  let timeout := match pq_timeout_at pq with Some t => t | None => now + dns_RETRANSMIT_TIMEOUT end in
+  if timeout <=? now
+  then dns_pq_with_timers pq (Some (now + dns_RETRANSMIT_TIMEOUT)) 0 dns_RETRANSMIT_DELAY (pq_server_idx pq + 1)
+  else dns_pq_with_timers pq (Some timeout) (pq_retransmit_at pq) (pq_delay pq) (pq_server_idx pq).
+
+(* ... and after a transmission: retransmit_at = now + delay, delay doubled up to the cap *)
+Definition dns_pq_sent (now : Z) (pq2 : dns_pending) : dns_pending :=
+  dns_pq_with_timers pq2 (pq_timeout_at pq2) (now + pq_delay pq2)
+                     (Z.min dns_MAX_RETRANSMIT_DELAY (pq_delay pq2 * 2)) (pq_server_idx pq2).
+
+Definition cfg_ok (cfg : dns_cfg) : Prop := 0 <= c_max_name cfg /\ c_max_name cfg + 16 <= 512.
+
+Lemma dns_consts_pos :
+  0 < dns_RETRANSMIT_DELAY /\ dns_RETRANSMIT_DELAY <= dns_MAX_RETRANSMIT_DELAY /\ 0 < dns_RETRANSMIT_TIMEOUT.
+Proof. unfold dns_RETRANSMIT_DELAY, dns_MAX_RETRANSMIT_DELAY, dns_RETRANSMIT_TIMEOUT. lia. Qed.
+
+Lemma pq_ok_pq2 : forall cfg now pq, pq_ok cfg pq -> pq_ok cfg (dns_pq2 now pq).
+Proof.
+  intros cfg now pq (A & B & C & D). pose proof dns_consts_pos as (P1 & P2 & P3).
+  unfold dns_pq2. destruct (_ <=? now); unfold pq_ok, dns_pq_with_timers; cbn; repeat split; auto; lia.
+Qed.
+
+Lemma pq_ok_sent : forall cfg now pq, pq_ok cfg pq -> pq_ok cfg (dns_pq_sent now pq).
+Proof.
+  intros cfg now pq (A & B & C & D). pose proof dns_consts_pos as (P1 & P2 & P3).
+  unfold dns_pq_sent, pq_ok, dns_pq_with_timers; cbn; repeat split; auto; lia.
+Qed.
+
+(* dispatch for one pending query: total, and one of four outcomes *)
+Lemma dns_dispatch_query_spec : forall cfg servers now pq,
+  cfg_ok cfg -> pq_ok cfg pq ->
+  let pq2 := dns_pq2 now pq in
+  let srv := dns_eff_servers servers pq in
+  exists r, dns_dispatch_query cfg servers now true pq = Ok r /\
+    ( (r = DqContinue QFailure /\
+       (Z.of_nat (length srv) <= pq_server_idx pq2 \/
+        exists dst, nth_error srv (Z.to_nat (pq_server_idx pq2)) = Some dst /\
+                    (dns_is_unspecified dst = true \/
+                     (pq_retransmit_at pq2 <= now /\ dns_get_source_address cfg dst = false))))
+   \/ (r = DqContinue (QPending pq2) /\ pq_server_idx pq2 < Z.of_nat (length srv) /\ now < pq_retransmit_at pq2 /\
+       exists dst, nth_error srv (Z.to_nat (pq_server_idx pq2)) = Some dst /\ dns_is_unspecified dst = false)
+   \/ (exists tx dst, r = DqEmit (QPending (dns_pq_sent now pq2)) tx /\
+         pq_server_idx pq2 < Z.of_nat (length srv) /\ pq_retransmit_at pq2 <= now /\
+         nth_error srv (Z.to_nat (pq_server_idx pq2)) = Some dst /\ dns_is_unspecified dst = false /\
+         tx_dst_addr tx = dst /\ tx_src_port tx = pq_port pq /\
+         tx_dst_port tx = (if pq_mdns pq then dns_MDNS_DNS_PORT else dns_DNS_PORT)) ).
+Proof.
+  intros cfg servers now pq (Hc1 & Hc2) Hq pq2 srv.
+  pose proof (pq_ok_pq2 cfg now pq Hq) as Hq2. fold pq2 in Hq2.
+  unfold dns_dispatch_query.
+  change (if pq_mdns pq then [dns_MDNS_IPV6_ADDR; dns_MDNS_IPV4_ADDR] else servers) with srv.
+  set (timeout := match pq_timeout_at pq with Some t => t | None => now + dns_RETRANSMIT_TIMEOUT end).
+  assert (E2 : (if timeout <=? now
+        then dns_pq_with_timers (dns_pq_with_timers pq (Some timeout) (pq_retransmit_at pq) (pq_delay pq) (pq_server_idx pq))
+               (Some (now + dns_RETRANSMIT_TIMEOUT)) 0 dns_RETRANSMIT_DELAY
+               (pq_server_idx (dns_pq_with_timers pq (Some timeout) (pq_retransmit_at pq) (pq_delay pq) (pq_server_idx pq)) + 1)
+        else dns_pq_with_timers pq (Some timeout) (pq_retransmit_at pq) (pq_delay pq) (pq_server_idx pq)) = pq2).
+  { unfold pq2, dns_pq2. fold timeout. destruct (timeout <=? now); reflexivity. }
+  rewrite E2. clear E2.
+  destruct (Z.of_nat (length srv) <=? pq_server_idx pq2) eqn:Ei.
+  { eexists; split; [reflexivity|]. left. split; [reflexivity|]. left. lia. }
+  apply Z.leb_gt in Ei.
+  destruct Hq2 as (N1 & N2 & N3 & N4).
+  destruct (nth_error srv (Z.to_nat (pq_server_idx pq2))) as [dst|] eqn:En.
+  2:{ exfalso. apply nth_error_None in En. lia. }
+  destruct (dns_is_unspecified dst) eqn:Eu.
+  { eexists; split; [reflexivity|]. left. split; [reflexivity|]. right. exists dst. auto. }
+  destruct (now <? pq_retransmit_at pq2) eqn:Er.
+  { eexists; split; [reflexivity|]. right. left. split; [reflexivity|]. split; [lia|]. split; [lia|]. exists dst. auto. }
+  apply Z.ltb_ge in Er.
+  set (repr := mkRepr (pq_txid pq2) wdns_OPCODE_QUERY wdns_FLAG_RECURSION_DESIRED (mkQuestion (pq_name pq2) (pq_type pq2))).
+  assert (Hbl : wdns_repr_buffer_len repr = 12 + wdns_len (pq_name pq2) + 4).
+  { unfold wdns_repr_buffer_len, wdns_question_buffer_len, repr, wdns_f_HEADER_END. cbn. lia. }
+  pose proof (wdns_len_nonneg (pq_name pq2)).
+  destruct (wdns_slice_ok (repeat 0 512%nat) 0 (wdns_repr_buffer_len repr)) as [buf Eb]; try lia.
+  { unfold wdns_len. rewrite repeat_length. lia. }
+  rewrite Eb. cbn [obind].
+  pose proof (wdns_slice_inv _ _ _ _ Eb) as (_ & _ & _ & _ & Lb).
+  destruct (wdns_repr_emit_ok repr buf) as [payload Ep]; [lia|]. rewrite Ep. cbn [obind].
+  destruct (dns_get_source_address cfg dst) eqn:Es; cbn [negb].
+  2:{ eexists; split; [reflexivity|]. left. split; [reflexivity|]. right. exists dst. auto. }
+  eexists; split; [reflexivity|]. right. right. eexists; exists dst. split; [reflexivity|].
+  repeat split; auto.
+  - unfold pq2, dns_pq2. destruct (_ <=? now); reflexivity.
+  - cbn [tx_dst_port]. unfold pq2, dns_pq2. destruct (_ <=? now); reflexivity.
+Qed.
+
+Lemma dns_dispatch_query_state_ok : forall cfg servers now pq r,
+  cfg_ok cfg -> pq_ok cfg pq -> dns_dispatch_query cfg servers now true pq = Ok r ->
+  slot_ok cfg (Some (dq_state r)).
+Proof.
+  intros cfg servers now pq r Hc Hq H.
+  destruct (dns_dispatch_query_spec cfg servers now pq Hc Hq) as (r' & E & C). rewrite E in H. inv H.
+  destruct C as [[-> _]|[[-> _]|(tx & dst & -> & _)]]; cbn; auto.
+  - apply pq_ok_pq2; assumption.
+  - apply pq_ok_sent. apply pq_ok_pq2; assumption.
+Qed.
+
+(* a query that has just been dispatched at [now] is left alone by a second dispatch at [now] *)
+Lemma dns_dispatch_query_stable : forall cfg servers now pq r pq',
+  cfg_ok cfg -> pq_ok cfg pq -> dns_dispatch_query cfg servers now true pq = Ok r ->
+  dq_state r = QPending pq' ->
+  dns_dispatch_query cfg servers now true pq' = Ok (DqContinue (QPending pq')).
+Proof.
+  intros cfg servers now pq r pq' Hc Hq H Hst.
+  pose proof dns_consts_pos as (P1 & P2 & P3).
+  destruct (dns_dispatch_query_spec cfg servers now pq Hc Hq) as (r' & E & C). rewrite E in H. inv H.
+  pose proof (pq_ok_pq2 cfg now pq Hq) as Hq2.
+  assert (HT : exists T, pq_timeout_at (dns_pq2 now pq) = Some T /\ now < T).
+  { unfold dns_pq2. destruct (_ <=? now) eqn:Et; cbn; eexists; split; try reflexivity; lia. }
+  destruct HT as (T & HT1 & HT2).
+  assert (Main : forall p dst, pq_ok cfg p -> pq_timeout_at p = Some T -> now < pq_retransmit_at p ->
+            pq_mdns p = pq_mdns pq -> pq_server_idx p = pq_server_idx (dns_pq2 now pq) ->
+            pq_server_idx (dns_pq2 now pq) < Z.of_nat (length (dns_eff_servers servers pq)) ->
+            nth_error (dns_eff_servers servers pq) (Z.to_nat (pq_server_idx (dns_pq2 now pq))) = Some dst ->
+            dns_is_unspecified dst = false ->
+            dns_dispatch_query cfg servers now true p = Ok (DqContinue (QPending p))).
+  { intros p dst Hp Tp Rp Mp Ip Il Hd Hu.
+    assert (Fix : dns_pq2 now p = p).
+    { unfold dns_pq2. rewrite Tp. replace (T <=? now) with false by (symmetry; apply Z.leb_gt; lia).
+      destruct p; cbn in *. subst. reflexivity. }
+    destruct (dns_dispatch_query_spec cfg servers now p Hc Hp) as (r2 & E2 & C2). rewrite E2. f_equal.
+    assert (Es : dns_eff_servers servers p = dns_eff_servers servers pq) by (unfold dns_eff_servers; rewrite Mp; reflexivity).
+    rewrite Fix, Es, Ip in C2.
+    destruct C2 as [[-> C2]|[[-> _]|(tx & dst2 & _ & _ & C2 & _)]]; try reflexivity; try lia.
+    destruct C2 as [C2|(dst2 & C2 & [C3|[C3 _]])]; try lia.
+    rewrite Hd in C2. inv C2. congruence. }
+  assert (Mdns2 : pq_mdns (dns_pq2 now pq) = pq_mdns pq) by (unfold dns_pq2; destruct (_ <=? now); reflexivity).
+  destruct C as [[-> _]|[[-> (C1 & C2 & dst & C3 & C4)]|(tx & dst & -> & C1 & C2 & C3 & C4 & _)]]; cbn in Hst; inv Hst.
+  - eapply Main; eauto.
+  - destruct Hq2 as (N1 & N2 & N3 & N4).
+    eapply Main; eauto.
+    + apply pq_ok_sent. exact (conj N1 (conj N2 (conj N3 N4))).
+    + cbn. lia.
+Qed.
